@@ -479,4 +479,20 @@ example : validPkg wShadowPkg = false ∧
     region .enum wShadowPkg { types := ["Color"], cmdline := "shoot enum -type=Color" } = .WF ∧
     region .new wShadowPkg { types := ["Order"], cmdline := "shoot new -type=Order" } = .WF := by decide
 
+/-! ### type names that differ only in letter case -/
+
+def wCasePkg : Pkg :=
+  [ { name := "a.go", comments := [], decls := [.types [{ name := "HTTPState", shape := .struct }, { name := "HttpState", shape := .struct }]] } ]
+
+/-- `shoot new -type=HTTPState,HttpState`: both names are fine, the specification asks for one file each - but both are called
+    a.shootnew.httpstate.go, the second overwrites the first in srcMap, one file is written and the run reports success -/
+theorem C16_F_case_collision_witness :
+    region .new wCasePkg { types := ["HTTPState", "HttpState"], cmdline := "shoot new -type=HTTPState,HttpState" } = .F_case_collision ∧
+    spec .new wCasePkg { types := ["HTTPState", "HttpState"], cmdline := "shoot new -type=HTTPState,HttpState" }
+      = some (.files [(⟨"a", some "httpstate"⟩, ["HTTPState"]), (⟨"a", some "httpstate"⟩, ["HttpState"])]) ∧
+    run .new wCasePkg { types := ["HTTPState", "HttpState"], cmdline := "shoot new -type=HTTPState,HttpState" }
+      = .done [(⟨"a", some "httpstate"⟩, ["HttpState"])] [⟨"a", some "httpstate"⟩] false ∧
+    region .new wCasePkg { file := "a.go", sep := true, cmdline := "shoot new -file=a.go -sep" } = .F_case_collision ∧
+    region .new wCasePkg { types := ["HTTPState"], cmdline := "shoot new -type=HTTPState" } = .Out := by decide
+
 end ShootVerif.Cli
